@@ -66,12 +66,14 @@ func (d *deduplicationStrategy) eval(
 	}
 
 	del := make([][]byte, 0)
+	versionRemoved := false
 	var rewriteKeys [][]byte
 	var rewriteValues [][]byte
 	// first, check if the whole entity is equal to the previous entity
 	if server.IsEntityEqual(d.prevEntityBytes, entityBytes, d.prev, e) {
 		// if to be deleted... delete 5 key types for each change version:
 		// 1.delete json entry (key already in keysToDelete)
+		versionRemoved = true
 		del = append(del, jsonKey)
 		d.counts["json"]++
 		// 2.DO NOT delete latestVersion key, need to re-assign if we delete the latest version though
@@ -132,7 +134,8 @@ func (d *deduplicationStrategy) eval(
 			}
 		}
 	}
-	if len(del) > 0 {
+	if versionRemoved {
+		// the version goes away: its predecessor stays the comparison base
 		res := &compactionInstruction{
 			DeleteKeys: del,
 		}
@@ -142,9 +145,13 @@ func (d *deduplicationStrategy) eval(
 		}
 		return res, nil
 	}
+	// the version stays (possibly without its duplicate reference keys) and is what the next one is compared to
 	d.prevJsonKey = jsonKey
 	d.prevEntityBytes = entityBytes
 	d.prev = e
+	if len(del) > 0 {
+		return &compactionInstruction{DeleteKeys: del}, nil
+	}
 	return nil, nil
 }
 
